@@ -20,6 +20,13 @@ def c01_ops(rng, tier):
                     m2 = m
             op = rng.choice(["solar.sub", "solar.before", "solar.after"])
             L.append("%s %d %d %d %d %d %d" % (op, y, m, d, y2, m2, d2))
+            if rng.random() < 0.3:   # month ends against the first of the next month, both ways
+                mm = rng.randint(1, 12)
+                ld = [31, 28, 31, 30, 31, 30, 31, 31, 30, 31, 30, 31][mm - 1]
+                y3, m3 = (y, mm + 1) if mm < 12 else (min(y + 1, 9999), 1)
+                for o in ("solar.before", "solar.after"):
+                    L.append("%s %d %d %d %d %d %d" % (o, y, mm, ld, y3, m3, 1))
+                    L.append("%s %d %d %d %d %d %d" % (o, y3, m3, 1, y, mm, ld))
         elif k < 0.65:
             L.append("solar.new %d %d %d" % (rng.randint(-3, 10002), rng.randint(-1, 14), rng.randint(-1, 33)))
         elif k < 0.75:
